@@ -243,6 +243,23 @@ fn clean_env(cmd: &mut Command) {
     cmd.env("RUST_BACKTRACE", "0");
 }
 
+/// Run the probe on a literal YAML text (file source).
+pub fn cfgprobe_raw(yaml: &str) -> Result<serde_json::Value, String> {
+    let exe = std::env::current_exe().map_err(|e| e.to_string())?;
+    let dir = scratch_dir();
+    let p = dir.join("probe.yaml");
+    std::fs::write(&p, yaml).map_err(|e| e.to_string())?;
+    let mut cmd = Command::new(exe);
+    clean_env(&mut cmd);
+    cmd.arg("cfgprobe").arg(&p);
+    cmd.stdin(Stdio::null()).stdout(Stdio::piped()).stderr(Stdio::piped());
+    let child = cmd.spawn().map_err(|e| e.to_string())?;
+    let ex = wait_child(child, Duration::from_secs(20));
+    let _ = std::fs::remove_dir_all(&dir);
+    let line = ex.stdout.lines().last().unwrap_or("");
+    serde_json::from_str(line).map_err(|e| format!("cfgprobe output unparsable ({}): {:?}", e, ex.stdout))
+}
+
 /// Run the probe for a written configuration from the given source.
 pub fn cfgprobe(w: &Written, src: Source) -> Result<serde_json::Value, String> {
     let exe = std::env::current_exe().map_err(|e| e.to_string())?;
@@ -647,6 +664,64 @@ pub fn c20_process_part(ctx: &Ctx, scanned: &AtomicU64) -> Result<u64, String> {
                 }
                 sp.kill();
             }
+        }
+    }
+    // per-client statistics persisted to disk: the files the reporter writes are emitted output too
+    {
+        let seed_hex = BASE_SEED_HEX;
+        let seed: [u8; 32] = rtref::crypto::unhex(seed_hex).try_into().unwrap();
+        let sc = Scanner::for_seed(&seed);
+        for src in [Source::File, Source::Env] {
+            let dir = scratch_dir();
+            let dirs = dir.display().to_string();
+            let (mut sp, port) = start_serving(
+                &|port| {
+                    let mut w = Written::base(port);
+                    w.set("num_workers", "2");
+                    w.set("client_stats", "on");
+                    w.set("persistence_directory", &dirs);
+                    w.set("status_interval", "1");
+                    w
+                },
+                src,
+                2,
+                Duration::from_secs(10),
+            )?;
+            let lt_pk = rtref::crypto::public_key(&seed);
+            let t = Instant::now();
+            while t.elapsed() < Duration::from_millis(2400) {
+                let _ = probe_workers(port, &lt_pk, 3, 8, false);
+                std::thread::sleep(Duration::from_millis(50));
+            }
+            sp.signal(libc::SIGINT);
+            let _ = sp.wait_exit(Duration::from_secs(10));
+            runs += 1;
+            let mut files = 0;
+            if let Ok(rd) = std::fs::read_dir(&dir) {
+                for e in rd.flatten() {
+                    let p = e.path();
+                    if p.extension().map(|x| x == "zst").unwrap_or(false) {
+                        files += 1;
+                        let raw = std::fs::read(&p).unwrap_or_default();
+                        let plain = zstd::decode_all(&raw[..]).unwrap_or_default();
+                        for (wh, text) in [("stats-file(compressed)", &raw), ("stats-file", &plain)] {
+                            scanned.fetch_add(text.len() as u64, Relaxed);
+                            if let Some(pt) = sc.scan(text) {
+                                ctx.violation("secret-in-persisted-stats", pt.split('/').next().unwrap_or("?"), "stats-file", json!({"kind":"process","variant":"client-stats-persisted","source":format!("{:?}", src),"where":wh,"pattern":pt}));
+                            }
+                        }
+                    }
+                }
+            }
+            for (wh, text) in [("stdout", sp.stdout()), ("stderr", sp.stderr())] {
+                scanned.fetch_add(text.len() as u64, Relaxed);
+                if let Some(pt) = sc.scan(text.as_bytes()) {
+                    ctx.violation("secret-in-process-output", pt.split('/').next().unwrap_or("?"), "client-stats-persisted", json!({"kind":"process","variant":"client-stats-persisted","source":format!("{:?}", src),"where":wh,"pattern":pt}));
+                }
+            }
+            ctx.cov(&format!("persisted_stats_files_{:?}", src), json!(files));
+            sp.kill();
+            let _ = std::fs::remove_dir_all(&dir);
         }
     }
     // every point of the C16 configuration grid (one deviation from the minimal base and from the
